@@ -1413,6 +1413,8 @@ def register_planar_ops(reg):
                 for z in sorted({zb, 0.0}):
                     pt = Vector(x, y, z)
                     a, b = _member(R, L, pt), _member(R, B, pt)
+                    if kind == "polyline" and op != "intersect" and b:
+                        continue  # every point of a 1-dimensional operand is a boundary point (the property speaks of points clear of the boundaries)
                     want = {"intersect": a and b, "difference": a and not b}[op]
                     got = _member(R, res, pt)
                     if got != want:
